@@ -14,7 +14,7 @@ from .mutators import window
 BA_KINDS = [None, False, True]
 
 
-def _find_shapes(states=SELF_STATES, operands=(('obj', 'Bits', 'immutable'), ('str',)), extra_opts=(False, True)):
+def _find_shapes(states=SELF_STATES, operands=(('obj', 'Bits', 'immutable'), ('str',), ('obj', 'Bits', 'buffer')), extra_opts=(False, True)):
     out = []
     for cls, st in states:
         for k in operands:
@@ -31,7 +31,7 @@ def _find_shapes(states=SELF_STATES, operands=(('obj', 'Bits', 'immutable'), ('s
                             return [o, r_operand(vals, 'bs', k, o), rv(vals, 'start', d['start']), rv(vals, 'end', d['end']), ba], {}
                         aligned = bool(ba) or (ba is None and optba)
                         out.append(Shape(f'{cls}/{st}/{opname(k)}/{cname(d)}/ba={ba}/opt={optba}', build, real,
-                                         opts={'bytealigned': optba}, props={'C07'} if aligned else None, stable=False))
+                                         opts={'bytealigned': optba}, props={'C07'} if aligned else None, stable=not aligned))
     return out
 
 
@@ -61,6 +61,17 @@ def find_post(first):
         r = out.value
         yield ('tuple', isinstance(r, tuple) and len(r) in (0, 1))
         if not isinstance(r, tuple):
+            return
+        if not sym.have_ctx():
+            # concrete replay: compare with the brute-force scan
+            ms = _brute(_concrete(D), _concrete(P), s, e, bool(ba))
+            if len(r) == 0:
+                yield ('complete', not ms)
+            else:
+                yield ('sound', r[0] in ms)
+                yield ('extremal', bool(ms) and r[0] == (ms[0] if first else ms[-1]))
+                if '_pos' in self.attrs:
+                    yield ('pos-moves-to-match', self.attrs['_pos'] == r[0])
             return
         st, et, m = sym._int_t(s), sym._int_t(e), sym._int_t(P.n)
 
@@ -101,7 +112,7 @@ contract('bitstream.ConstBitStream.rfind', shapes=_find_shapes([s for s in SELF_
 def _pre_shapes():
     out = []
     for cls, st in SELF_STATES:
-        for k in (('obj', 'Bits', 'immutable'), ('str',), ('self',)):
+        for k in (('obj', 'Bits', 'immutable'), ('str',), ('self',), ('obj', 'Bits', 'buffer')):
             for d in opt_combos(['start', 'end']):
                 def build(S, interp, cls=cls, st=st, k=k, d=d):
                     o = m_bits(S, interp, 'self', cls, st)
